@@ -241,7 +241,7 @@ Proof.
   intros H. destruct x as [a|], y as [b|]; auto.
   - symmetry. apply H. reflexivity.
   - discriminate (proj1 (H a) eq_refl).
-  - symmetry. apply H. reflexivity.
+  - discriminate (proj2 (H b) eq_refl).
 Qed.
 
 Lemma lookup_r_pcompose A B C m1 m2 k : valid_pm A B m1 -> valid_pm B C m2 ->
@@ -321,4 +321,106 @@ Proof.
   - rewrite Fs. intros i Hi NI. destruct i; [reflexivity|]. elim NI. apply in_seq. lia.
   - rewrite Sn. intros j Hj. apply in_seq. lia.
   - intros p Hp. apply in_map_iff in Hp. destruct Hp as [x [Ex Ix]]. subst p. reflexivity.
+Qed.
+
+(* ---------- a finite enumeration of all partial matchings ---------- *)
+Definition remove_nat (j : nat) (l : list nat) : list nat := filter (fun x => negb (Nat.eqb x j)) l.
+
+Fixpoint pms (is js : list nat) : list pmatching :=
+  match is with
+  | [] => [[]]
+  | i :: is' => pms is' js ++ flat_map (fun j => map (cons (i, j)) (pms is' (remove_nat j js))) js
+  end.
+
+Definition all_pm (M N : nat) : list pmatching := pms (seq 0 M) (seq 0 N).
+
+Lemma in_remove_nat x j l : In x (remove_nat j l) <-> In x l /\ x <> j.
+Proof.
+  unfold remove_nat. rewrite filter_In, negb_true_iff, Nat.eqb_neq. tauto.
+Qed.
+
+Lemma nil_in_pms is js : In [] (pms is js).
+Proof. revert js. induction is as [|i is IH]; intros js; simpl; [auto|]. apply in_or_app. left. apply IH. Qed.
+
+Lemma pms_sound is : NoDup is -> forall js m, NoDup js -> In m (pms is js) ->
+  NoDup (map fst m) /\ NoDup (map snd m) /\ forall p, In p m -> In (fst p) is /\ In (snd p) js.
+Proof.
+  induction is as [|i is IH]; intros NDi js m NDj H; simpl in H.
+  - destruct H as [H|[]]. subst. simpl. repeat split; try constructor; contradiction.
+  - inversion NDi as [|x l NI ND]. subst. apply in_app_or in H. destruct H as [H|H].
+    + destruct (IH ND js m NDj H) as [A [B C]]. repeat split; auto.
+      * right. apply C. exact H0.
+      * apply C. exact H0.
+    + apply in_flat_map in H. destruct H as [j [Ij H]]. apply in_map_iff in H.
+      destruct H as [m' [E H]]. subst m.
+      assert (NDr : NoDup (remove_nat j js)) by (apply NoDup_filter; exact NDj).
+      destruct (IH ND (remove_nat j js) m' NDr H) as [A [B C]]. simpl. repeat split.
+      * constructor; [|exact A]. intros I. apply in_map_iff in I. destruct I as [p [E I]].
+        apply C in I. subst i. tauto.
+      * constructor; [|exact B]. intros I. apply in_map_iff in I. destruct I as [p [E I]].
+        apply C in I. destruct I as [_ I]. apply in_remove_nat in I. subst j. tauto.
+      * destruct H0 as [H0|H0]; [subst p; simpl; auto|]. right. apply C. exact H0.
+      * destruct H0 as [H0|H0]; [subst p; simpl; auto|]. apply C in H0. destruct H0 as [_ I].
+        apply in_remove_nat in I. tauto.
+Qed.
+
+Lemma pms_complete is : forall js (m : pmatching), NoDup (map fst m) -> NoDup (map snd m) ->
+  (forall p, In p m -> In (fst p) is /\ In (snd p) js) ->
+  exists m', In m' (pms is js) /\ Permutation m m'.
+Proof.
+  induction is as [|i is IH]; intros js m F S B.
+  - destruct m as [|p m]; [exists []; simpl; auto|]. destruct (B p (or_introl eq_refl)) as [[] _].
+  - destruct (in_dec Nat.eq_dec i (map fst m)) as [I|NI].
+    + apply in_map_fst in I. destruct I as [j I]. destruct (in_split _ _ I) as [l1 [l2 E]].
+      assert (Pm : Permutation m ((i, j) :: l1 ++ l2)) by (subst m; symmetry; apply Permutation_middle).
+      assert (F' : NoDup (map fst ((i, j) :: l1 ++ l2)))
+        by (eapply Permutation_NoDup; [apply Permutation_map; exact Pm|exact F]).
+      assert (S' : NoDup (map snd ((i, j) :: l1 ++ l2)))
+        by (eapply Permutation_NoDup; [apply Permutation_map; exact Pm|exact S]).
+      simpl in F', S'. inversion F' as [|x l NIf NDf]. inversion S' as [|x' l' NIs NDs]. subst x l x' l'.
+      destruct (IH (remove_nat j js) (l1 ++ l2) NDf NDs) as [m0 [I0 P0]].
+      { intros p Hp. assert (Hm : In p m) by (eapply Permutation_in; [symmetry; exact Pm|right; exact Hp]).
+        destruct (B p Hm) as [B1 B2]. split.
+        - destruct B1 as [B1|B1]; [|exact B1]. elim NIf. rewrite B1. apply in_map. exact Hp.
+        - apply in_remove_nat. split; [exact B2|]. intros Ej. elim NIs. rewrite <- Ej. apply in_map. exact Hp. }
+      exists ((i, j) :: m0). split.
+      * simpl. apply in_or_app. right. apply in_flat_map. exists j. split.
+        -- apply (B (i, j) I).
+        -- apply in_map. exact I0.
+      * rewrite Pm. constructor. exact P0.
+    + destruct (IH js m F S) as [m0 [I0 P0]].
+      { intros p Hp. destruct (B p Hp) as [B1 B2]. split; [|exact B2].
+        destruct B1 as [B1|B1]; [|exact B1]. elim NI. rewrite B1. apply in_map. exact Hp. }
+      exists m0. split; [|exact P0]. simpl. apply in_or_app. left. exact I0.
+Qed.
+
+Lemma all_pm_sound M N m : In m (all_pm M N) -> valid_pm M N m.
+Proof.
+  intros H. destruct (pms_sound (seq 0 M) (seq_NoDup M 0) (seq 0 N) m (seq_NoDup N 0) H) as [A [B C]].
+  repeat split; auto.
+  - apply C in H0. destruct H0 as [H0 _]. apply in_seq in H0. lia.
+  - apply C in H0. destruct H0 as [_ H0]. apply in_seq in H0. lia.
+Qed.
+
+Lemma all_pm_complete M N m : valid_pm M N m -> exists m', In m' (all_pm M N) /\ Permutation m m'.
+Proof.
+  intros [A [B C]]. apply pms_complete; auto.
+  intros p Hp. apply C in Hp. rewrite !in_seq. lia.
+Qed.
+
+Lemma valid_pm_nil M N : valid_pm M N [].
+Proof. repeat split; try constructor; contradiction. Qed.
+
+Lemma valid_pm_perm M N m m' : Permutation m m' -> valid_pm M N m -> valid_pm M N m'.
+Proof.
+  intros H [A [B C]]. repeat split.
+  - eapply Permutation_NoDup; [apply Permutation_map; exact H|exact A].
+  - eapply Permutation_NoDup; [apply Permutation_map; exact H|exact B].
+  - apply C. eapply Permutation_in; [symmetry; exact H|exact H0].
+  - apply C. eapply Permutation_in; [symmetry; exact H|exact H0].
+Qed.
+
+Lemma valid_pm_right_empty M m : valid_pm M 0 m -> m = [].
+Proof.
+  intros [_ [_ C]]. destruct m as [|p m]; [reflexivity|]. destruct (C p (or_introl eq_refl)). lia.
 Qed.
